@@ -245,6 +245,35 @@ def r20_6(ctx: Ctx) -> None:
     ctx.check(bool(shares), "R20.6", f, starts[0], "concurrent folders share one step budget (block size field set to a quotient)",
               "while several folders are decoded at the same time each of them still takes the full get_memory_limit() per step: nothing divides the budget among the concurrent "
               "workers (Worker.decompress reads no field that Worker.extract sets to a share)", construct="concurrent folders: undivided chunk budget")
+    # (c) the share is in force as long as tasks are being started: the field is set back (to None: full step size) only where no start() can follow
+    cfg = cfg_of(f.node)
+    backs = [n for n in walk(f.node) if isinstance(n, ast.Assign) and norm(n.targets[0]) in fields and isinstance(n.value, ast.Constant) and n.value.value is None]
+    for b in backs:
+        again = [c for c in starts if cfg.reaches(q.node_for(f, b), q.node_for(f, c))]
+        ctx.check(not again, "R20.6", f, b, "the step budget is given back only after the last batch",
+                  f"`{norm(b)}` can be followed by `{norm(again[0]) if again else ''}`: the share is withdrawn inside the batching loop, so every batch after the first decodes with the full "
+                  "get_memory_limit() per folder (8 folders of 200 MB zeros: 1.2 GiB instead of 280 MiB)", construct="step budget reset before the last batch")
+    # (d) arithmetic of the batch width: W decoders live at once, each with the dictionary of its folder - 64 MiB for the strongest standard
+    # presets (7-Zip -mx=9, xz -9; larger ones are the subject of the known finding on dictionary sizes) - next to one step budget in and out
+    try:
+        w = ctx.ce.eval(ast.parse("MAX_CONCURRENT_FOLDERS", mode="eval").body, "py7zr")
+    except NotConst:
+        w = None
+    if w is None:
+        ctx.note("R20.6: no constant MAX_CONCURRENT_FOLDERS (the width of a batch is judged by (a))")
+    else:
+        gm = ctx.prog.func("properties", "get_memory_limit")
+        cap = [n for n in walk(gm.node) if isinstance(n, ast.Assign) and norm(n.targets[0]) == "default_limit"]
+        try:
+            capv = ctx.ce.eval(cap[0].value, "properties") if cap else None
+        except NotConst:
+            capv = None
+        budget, dic = 700 * 2 ** 20, 64 * 2 ** 20
+        ok = isinstance(w, int) and capv is not None and w * dic + 2 * capv <= budget
+        ctx.check(ok, "R20.6", f, f.node, f"batch width {w}: {w} x 64 MiB of dictionaries + 2 x {capv} step budget <= 700 MiB",
+                  f"MAX_CONCURRENT_FOLDERS = {w}: the step budget is divided among the folders of a batch, their dictionaries are not - {w} decoders with the 64 MiB dictionary of the "
+                  f"strongest standard presets hold {w * 64} MiB, which with one step budget in and out ({capv} bytes each) exceeds the 700 MiB the property allows",
+                  construct="batch width times dictionary size")
 
 
 def r20_7(ctx: Ctx) -> None:
